@@ -7,7 +7,7 @@ GOENV = "GOFLAGS=-mod=mod GOPROXY=off GOSUMDB=off GOTOOLCHAIN=local"
 CHECKS = {
  "C15": dict(
    text="Bounded symbolic model checking of the real decodeTimeout (with strconv.ParseInt interpreted from source): every grpc-timeout string of length 0..10 with all bytes symbolic is compared with a reference (1-8 digits x unit, clamp of overflowing hours, rejection of every malformed shape). Exhaustive within the bound because lengths are enumerated and bytes are solver variables. Through the serveGRPC driver: a malformed grpc-timeout is answered 400 without invoking the handler, a well-formed one becomes the handler context's deadline (frozen-clock model).",
-   note="Trusted: go/ssa as source semantics, the engine's instruction semantics (validated per run by native replay of witnesses), z3. Not covered (N/A part of the property): client cancellation / disconnect reaching a blocked handler - needs goroutines and the HTTP/2 server, which the executor does not model. Sign-prefixed values are unspecified.",
+   note="Trusted: go/ssa as source semantics, the engine's instruction semantics (validated per run by native replay of witnesses), z3. Cancellation: the request context reaches the handler on every transport; a handler blocked in RecvMsg / SendMsg when the client disconnects is released with an error (sequentialised, VerifH_cancel) and - under the goroutine model - a receive still pending when the handler ends the call is released and the call completes (VerifH_grpc_pending_recv). Outside: the HTTP/2 server's own stream resets. Sign-prefixed values are unspecified.",
    design="§4 C15"),
  "C17": dict(
    text="Bounded symbolic model checking of the real CodecProto / CodecJSON / codecHTTPBody ReadNext+WriteNext: round trips of k symbolic messages through every read partition, EOF placement, carry-over and buffer capacity (the read schedule is a nondeterministic io.Reader), plus ReadNext on arbitrary symbolic wire bytes (all 1..10-byte varint prefixes, all uint64 sizes, arbitrary brace/quote/escape bytes) against reference decoders written from the wire specs.",
@@ -15,19 +15,19 @@ CHECKS = {
    design="§4 C17"),
  "C05": dict(
    text="Bounded symbolic model checking of the status kernels: HTTPStatusCode / WSStatusCode on any uint32 code against the frozen documented tables; encodeGrpcMessage on every byte string up to the bound, decoded back with a reference Percent-Decoder and checked for legal output bytes. Through the real drivers (NewMux + registerService + ServeHTTP with a ResponseWriter model): gRPC grpc-status / grpc-message trailers, HTTP status + google.rpc.Status body under the negotiated type, Twirp name and message, gRPC-web trailer frame in binary and base64 text mode (and trailers-only responses) on HTTP/1.1 and HTTP/2, for handler codes 1..17 and symbolic messages.",
-   note="Trusted: go/ssa semantics, engine semantics, z3, exact model of fmt.Sprintf(\"%%%02x\"). WebSocket: the close frame after a real ws.UpgradeHTTP (gobwas/ws interpreted from source) carries the mapped close code and the message cropped only to the 123-byte capacity. Outside: what real clients decode (transports are not encoded), JSON rendering of the status body, status details.",
+   note="Trusted: go/ssa semantics, engine semantics, z3, exact model of fmt.Sprintf(\"%%%02x\"). WebSocket: the close frame after a real ws.UpgradeHTTP (gobwas/ws interpreted from source) carries the mapped close code and the message cropped only to the 123-byte capacity. Status details (1..2 Any values, empty and non-empty message) are followed to the grpc-status-details-bin trailer (gRPC, gRPC-web trailer frame and trailers-only headers; decoded with an independent base64 + protobuf wire reader) and to the google.rpc.Status handed to the codec (transcoding); Twirp bodies for messages that need JSON escaping are read back with an independent RFC 8259 reader. Outside: what real clients decode (transports are not encoded), protojson rendering of the status body.",
    design="§4 C05"),
  "C01": dict(
    text="Bounded symbolic model checking of the real trie: rule sets are registered with the real addRule (lexTemplate, addVariable, addPath) over fake descriptors, then match (lexPath, search, variable.index, parseParam) runs on a fully symbolic request path; whatever is dispatched must be covered by a rule of that method under an independent reference matcher over the raw path (liberal reading of ':'), with captures byte-equal to the reference captures and no other field set.",
-   note="Trusted: go/ssa semantics, engine semantics (witness replay), z3, the fake descriptor kit, the reference matcher (Appendix C.2). Bounds: curated rule-set family, ASCII paths up to 8 (quick) / 10 (thorough) bytes. Outside: unicode bytes, longer paths, non-string capture conversion, rule sets outside the family.",
+   note="Trusted: go/ssa semantics, engine semantics (witness replay), z3, the fake descriptor kit, the reference matcher (Appendix C.2). Bounds: curated rule-set family, ASCII paths up to 8 (quick) / 10 (thorough) bytes; FULLY symbolic bytes (non-ASCII letters and numbers, invalid UTF-8) for 1..3 / 1..5 bytes after a unicode prefix, with unicode.IsLetter / IsNumber encoded exactly from the range tables; typed captures (int32, bool, well-known wrappers, FieldMask) through ServeHTTP; request verbs without a rule kind (HEAD, OPTIONS, ...). Outside: longer paths, rule sets outside the family.",
    design="§4 C01"),
  "C02": dict(
    text="Same engine run as C01 with the completeness obligations: a rule that matches verb+path under the strict reading implies dispatch to a method owning a matching rule, a literal spelling beats a wildcard/variable at the same top-level position, and a relational harness builds two tries from permuted registration orders and asserts equal dispatch and captures for the same symbolic path.",
-   note="Trusted base as C01. Outside: permutations other than reversal/rotation, domination inside variable patterns (unspecified), unicode, longer paths.",
+   note="Trusted base as C01. Also: non-ASCII path text with fully symbolic bytes (reference character class beyond ASCII = Unicode letter or number, independent of larking's isPath); completeness after every step of the registration histories (rules of earlier registrations still dispatch). Outside: permutations other than reversal/rotation, domination inside variable patterns (unspecified), longer paths.",
    design="§4 C02"),
  "C16": dict(
    text="Bounded symbolic model checking of registration: the real lexTemplate + addRule run on every template string up to the bound (all bytes symbolic) onto empty and pre-populated tries and are compared with an independent recursive-descent reference of the documented grammar (valid+resolvable => accepted; not derivable / unknown field / unresolvable body or response_body selector / colliding binding / nested bindings => error; never a panic; a rejected rule leaves the old route working).",
-   note="Trusted base as C01. Unspecified regions (only panic-freedom demanded): nested variables, '**' not last, literals not starting with a letter, message-typed path fields, kind-* vs specific verb across methods. Publication atomicity is decided through the real registerService in the registry histories (a failing registration leaves the published snapshot pointer-identical).",
+   note="Trusted base as C01. Unspecified regions (only panic-freedom demanded): nested variables, '**' not last, literals not starting with a letter, message-typed path fields, kind-* vs specific verb across methods. Publication atomicity is decided through the real registerService in the registry histories (a failing registration leaves the published snapshot pointer-identical). Literal templates with fully symbolic (non-ASCII, invalid UTF-8) bytes are decided against the grammar with Unicode letters / numbers.",
    design="§4 C16"),
  "C19": dict(
    text="Bounded symbolic model checking of the real ruleSelector.setRules/getRules: a symbolic well-formed selector plus a menu selector, both registration orders, against every symbolic method name within the bound; a rule is returned iff the reference selector semantics (exact name, '*', or 'prefix.*' covering >= 1 further component) says so.",
@@ -51,23 +51,23 @@ CHECKS = {
    design="§4 C04"),
  "C07": dict(
    text="Bounded symbolic model checking through the real public entry: NewMux + registerService + ServeHTTP -> serveHTTP -> RecvMsg -> params.set on fake descriptors, with the path capture and a competing value for the same field as independent symbolic strings supplied through the query string and/or the decoded body; the field the handler receives must equal the capture (a relational query: any model with received != capture is a counterexample).",
-   note="Trusted: go/ssa semantics, engine (witness replay), z3, fake descriptor / registry / ResponseWriter kit, stub of proto.GetExtension. Outside: repeated path-bound fields, percent-escaped query values.",
+   note="Trusted: go/ssa semantics, engine (witness replay), z3, fake descriptor / registry / ResponseWriter kit, stub of proto.GetExtension. Also: typed path variables (int32, bool, oneof members, well-known wrapper and FieldMask messages) against rival query values, the WebSocket upgrade path, and a fully symbolic raw query string (net/url interpreted). Outside: repeated path-bound fields.",
    design="§4 C07"),
  "C03": dict(
    text="Bounded symbolic model checking of request reconstruction: query-key resolution (proto / JSON names, dotted paths), per-kind conversion of URL text for string, bytes (base64 per the proto3-JSON rule, against a reference decoder), enum, int32 and bool, application to the message (set / append / nested creation), rejection of unknown keys and of paths through repeated or map fields, and through the real ServeHTTP the body plumbing (bytes reach the codec unmodified exactly once on the whole message or the body field, params after the body).",
-   note="Trusted base as C07 plus the exact model of encoding/json.Unmarshal for integer / bool targets. The real JSON codec (CodecJSON / protojson; modelled fragment under the engine, real codec natively) is driven end to end for string fields. N/A part, stated: float / 64-bit / well-known-type text conversion, the binary protobuf codec, gzip.",
+   note="Trusted base as C07 plus the exact model of encoding/json.Unmarshal for integer / bool targets. The real JSON codec (CodecJSON / protojson; modelled fragment under the engine, real codec natively) is driven end to end for string fields. Well-known-type parameters (wrappers, FieldMask, Duration, Timestamp): larking's quote / parseParam / set are executed for real, protojson's scalar forms are modelled (model_wkt.go) and compared with the real codec on every run (each entry of a 40-text boundary menu is replayed natively). Floats by a concrete menu. N/A part, stated: the binary protobuf codec on real messages, FloatValue / DoubleValue / Struct parameters, protojson forms outside the model (exponents, quoted numbers, zone offsets).",
    design="§4 C03"),
  "C18": dict(
    text="Bounded symbolic model checking of the interceptor / stats plumbing through the real drivers: one unary RPC through NewMux + registerService + ServeHTTP on the gRPC and the transcoding entry with every combination of stats handler and unary interceptor on/off and succeeding / failing handlers (symbolic code and message): the interceptor runs exactly once with the full method name, the recorded stats events form tag, in-header, begin, payload events, out-trailer, end with End exactly once carrying the handler's error and payload lengths equal to the message lengths, and the client-visible result satisfies the same oracle under every option combination.",
-   note="Trusted base as C07. Also: stream interceptor (handing a wrapping stream to the handler) and per-message stats on a bidirectional gRPC stream; End event of WebSocket calls. Outside: proxied handlers.",
+   note="Trusted base as C07. Also: stream interceptor (handing a wrapping stream to the handler) and per-message stats on a bidirectional gRPC stream; End event of WebSocket calls; proxied calls (RegisterConn) through interceptors and stats exactly once, incl. a unary interceptor that replaces the reply or answers without calling the backend.",
    design="§4 C18"),
  "C09": dict(
    text="Panic-freedom and termination as the only obligations, over the real entry point and kernels on unconstrained symbolic input: ServeHTTP with symbolic content types, Accept headers, paths and bodies across the gRPC, gRPC-web and transcoding entries on HTTP/1 and HTTP/2; match at the 64-token cap; query parameters over list / map / nested fields; registration of mutated templates; stream codec parsers; gRPC frame reader with stats; status tables; negotiation; timeout parser. Any panic escaping larking's code or a path exhausting the step budget is reported with the concrete request and replayed natively.",
-   note="Trusted base as C07. Every media type is served by the recording codec (real protobuf-go codecs cannot run on fake messages). Outside: the HTTP/2 server, ws.UpgradeHTTP / WebSocket frame I/O, user-supplied interceptors, gzip.",
+   note="Trusted base as C07. Every media type is served by the recording codec (real protobuf-go codecs cannot run on fake messages). Also: arbitrary bytes after a real WebSocket upgrade, a fully symbolic query string, well-known-type parameters incl. the empty text, and (goroutine model) a streaming gRPC handler that returns while its own goroutine waits in RecvMsg - the call must complete (deadlock detection). Outside: the HTTP/2 server, user-supplied interceptors that panic, gzip streams with symbolic bytes.",
    design="§4 C09"),
  "C10": dict(
    text="Bounded model checking of the proxy path on the real code under the engine's cooperative goroutine model: one gRPC call through the REAL RegisterConn + createConnHandler (its pump goroutine and reply loop) + serveGRPC for each of the four streaming shapes, against a scripted backend (0..2 replies, final status OK / NotFound / Canceled / Unavailable, failing before, during or after the stream, reading the request stream first, last or never) and a client that sends 0..2 messages and either ends its stream or keeps it open; the backend must receive exactly the client's messages and metadata, the client exactly the backend's replies in order followed by its final status, and the call must complete (deadlocks are found by the scheduler). grpc-go's client transport is replaced by an in-memory stream under the engine; every replay runs the same scripted backend behind a real in-process grpc.Server, so the model is compared with real grpc-go on every run.",
-   note="Partial claim. Trusted: go/ssa semantics, engine semantics incl. the goroutine model, z3, the in-memory stream model (documented assumptions in the evidence file). Two defects found this way were repaired (missing CloseSend, F-D35; empty client streams answered Unknown 'EOF' without calling the backend, F-D37), one is listed as a known finding (F-D36: hang when the backend ends first while the client keeps its stream open) and is reported as a KNOWN-FINDING line. Outside: status details, backend headers / trailers, proxied calls over the HTTP-transcoding, gRPC-web and WebSocket front ends, more than 2 messages per direction, flow control, deadline / cancellation propagation, schedules beyond the context bound.",
+   note="Partial claim. Trusted: go/ssa semantics, engine semantics incl. the goroutine model, z3, the in-memory stream model (documented assumptions in the evidence file). Two defects found this way were repaired (missing CloseSend, F-D35; empty client streams answered Unknown 'EOF' without calling the backend, F-D37), one is listed as a known finding (F-D36: hang when the backend ends first while the client keeps its stream open) and is reported as a KNOWN-FINDING line. Status details with an empty message and request metadata under a non-protocol grpc- key are followed end to end. Outside: backend headers / trailers, proxied calls over the HTTP-transcoding, gRPC-web and WebSocket front ends, more than 2 messages per direction, flow control, deadline / cancellation propagation, schedules beyond the context bound.",
    design="§10.8"),
  "C11": dict(
    text="Bounded model checking of the registration state machine through the real code: NewMux, registerService, RegisterConn's body (clone, addConnHandler with a fake reflection conversation, storeState), DropConn, removeHandler, delRule, pickMethodHandler and match are executed for every history of register / drop operations up to the bound, and after every step the published state is compared with a reference model mapping each method to its number of live backends (counts, dropped handlers gone, handler pick succeeds iff a backend is live, the HTTP route of every live method still dispatches, documented return values).",
@@ -75,11 +75,11 @@ CHECKS = {
    design="§4 C11"),
  "C12": dict(
    text="The copy-on-write premises on the real code (after every writer of every registration history the previously published snapshot has an unchanged structural fingerprint; no-op and failing operations leave the routing state unchanged, a failed registerService leaves the snapshot pointer identical; an old snapshot resolves every symbolic request path identically before and after a second writer ran) AND, under the engine's cooperative goroutine model, the interleavings themselves: the REAL RegisterConn / registerService / DropConn run concurrently with each other and with a request for an already-registered method; every schedule within the context bound (2 / 3 preemptive switches; scheduling points at mutex, atomic snapshot load / store, pool operations and the reflection round trips) must end with the effect of both operations published, the request served and every live route dispatching. Schedule-dependent counterexamples are confirmed natively by stress replay against a real in-process gRPC backend.",
-   note="Trusted base as C11 plus the goroutine model (scheduling points only at synchronisation operations; validated per run by VerifH_sched_selftest, which must find the textbook lost update and must not find one under a mutex). A happens-before race detector (vector clocks; confirmed natively under go test -race) runs on the explored schedules: replacing the atomic publication by a plain field is reported as a data race, removing or narrowing Mux.mu as a lost update. NOT claimed: races on memory touched only inside engine intrinsics (copy, append, library models), atomicity violations between unsynchronised accesses that lie between two scheduling points, schedules beyond the context bound.",
+   note="Trusted base as C11 plus the goroutine model (scheduling points only at synchronisation operations; validated per run by VerifH_sched_selftest, which must find the textbook lost update and must not find one under a mutex). A happens-before race detector (vector clocks; confirmed natively under go test -race) runs on the explored schedules: replacing the atomic publication by a plain field is reported as a data race, removing or narrowing Mux.mu as a lost update. NOT claimed: races on memory touched only inside library models, atomicity violations between unsynchronised accesses that lie between two scheduling points, schedules beyond the context bound.",
    design="§4 C12"),
  "C13": dict(
-   text="Pooled-buffer and pooled-compressor isolation on the real code: consecutive requests over larking's byte pool (HttpBody bodies retained by the first handler), the pooled gzip compressor with the REAL compress/gzip interpreted (consecutive calls reuse the pooled reader / writer, also after a truncated stream; two compressions in flight at once must get two writers), and - under the engine's cooperative goroutine model - two requests served CONCURRENTLY by one mux on every mix of HTTP transcoding, gRPC and gRPC-web text with scheduling points at every pool operation, atomic load and network read / write: each client must receive exactly the reply to its own request under every schedule within the context bound.",
-   note="Trusted base as C07 plus the goroutine model (see C12). The happens-before race detector runs on these schedules as well. NOT claimed: races on memory touched only inside engine intrinsics, more than two concurrent requests, schedules beyond the context bound, the proxy's stream pumps under C13 (they are exercised, with race detection, under C10). Detects: recycling a buffer before its last use, dropping the copy out of a pooled buffer, returning a pooled gzip writer twice, not resetting a pooled writer.",
+   text="Pooled-buffer and pooled-compressor isolation on the real code: consecutive requests over larking's byte pool (HttpBody bodies retained by the first handler), the pooled gzip compressor with the REAL compress/gzip interpreted (consecutive calls reuse the pooled reader / writer, also after a truncated stream; two compressions in flight at once must get two writers), and - under the engine's cooperative goroutine model - two requests served CONCURRENTLY by one mux on every mix of HTTP transcoding, gRPC (with and without per-message compression) and gRPC-web text with scheduling points at every pool operation, atomic load and network read / write: each client must receive exactly the reply to its own request under every schedule within the context bound.",
+   note="Trusted base as C07 plus the goroutine model (see C12). The happens-before race detector runs on these schedules as well. The race detector also records the element accesses of copy / append, and sync.Pool.Put is followed by a scheduling point (use-after-Put). NOT claimed: races on memory touched only inside library models, more than two concurrent requests, schedules beyond the context bound, the proxy's stream pumps under C13 (they are exercised, with race detection, under C10). Detects: recycling a buffer before its last use, dropping the copy out of a pooled buffer, returning a pooled gzip writer twice, not resetting a pooled writer.",
    design="§4 C13"),
  "C20": dict(
    text="Bounded symbolic model checking of server mounting on the real code: NewServer with MuxHandleOption / HTTPHandlerOption is executed with net/http.ServeMux (pattern registration and routing), http.StripPrefix, the h2c wrapper and http2.ConfigureServer interpreted from source; a request sent as prefix+path to the server's handler must be answered exactly (status, every header, body, handler invocations, captured variables) as an identically built bare mux answers path, for the transcoding, error / Twirp, gRPC and gRPC-web entries and four mount configurations; a path outside every prefix must not reach the mux and a handler added with HTTPHandlerOption must keep its pattern.",
